@@ -33,9 +33,13 @@ class ProfileData(object):
     @classmethod
     def from_str_list(cls, id_to_run_id: list["RunId"], str_list, _line_number=None,
                       _filename=None):
+        processed_data = str_list[-1]
+        # the remains of an interrupted write are not valid JSON; check it first,
+        # because the other columns of such a line can still look valid
+        json.loads(processed_data)
+
         invocation = int(str_list[0])
         num_iterations = int(str_list[1])
         run_id = RunId.from_str_list(id_to_run_id, str_list[2:-1])
-        processed_data = str_list[-1]
 
         return ProfileData(run_id, processed_data, num_iterations, invocation)
